@@ -298,3 +298,77 @@ def run(tier: str, budget: Budget, rnd, repo_mod) -> StreamResult:
                 if len(res.disagreements) > 5:
                     break
     return res
+
+
+# ---------------------------------------------------------------------------------------------------------------
+# replay: re-execute a recorded history (protocol lines without the object name) on a fresh real object
+
+def apply_line(g, words: list[str]):
+    """execute one `tab …` operation (object name already removed) on a real game; returns the canonical answer"""
+    import numpy as np
+    from incomplete_cooperative.coalitions import Coalition
+    from common import parse_nlist, parse_rlist
+    op = words[0]
+    C = lambda x: Coalition(int(x))                       # noqa: E731
+    cs = lambda s_: None if s_ == "none" else [Coalition(c) for c in parse_nlist(s_)]   # noqa: E731
+    fv = lambda s_: np.array([float(x) for x in parse_rlist(s_)], dtype=float)           # noqa: E731
+    try:
+        if op == "set":
+            g.set_value(float(Fraction(words[2])), C(words[1]))
+        elif op == "unset":
+            g.unset_value(C(words[1]))
+        elif op == "reveal":
+            g.reveal_value(float(Fraction(words[2])), C(words[1]))
+        elif op == "unreveal":
+            g.unreveal_value(C(words[1]))
+        elif op == "setlo":
+            g.set_lower_bound(float(Fraction(words[2])), C(words[1]))
+        elif op == "sethi":
+            g.set_upper_bound(float(Fraction(words[2])), C(words[1]))
+        elif op == "setvalues":
+            g.set_values(fv(words[2]), cs(words[1])) if words[1] != "none" else g.set_values(fv(words[2]))
+        elif op == "setknown":
+            g.set_known_values([float(x) for x in parse_rlist(words[2])], cs(words[1]))
+        elif op == "bounds":
+            f = g.set_upper_bounds if words[1] == "hi" else g.set_lower_bounds
+            f(fv(words[3]), cs(words[2])) if words[2] != "none" else f(fv(words[3]))
+        elif op == "compute":
+            g.compute_bounds()
+        else:
+            return "unsupported"
+        return "ok"
+    except Exception as e:      # noqa: BLE001
+        return err_kind(e)
+
+
+def replay(prop: str, payload: dict):
+    """C17 replay: the recorded history is run again on a fresh real object; the known flags and the known rows are
+    checked against the abstract spec (set / revealed and not since unset / reset) recomputed from the history."""
+    from incomplete_cooperative.game import IncompleteCooperativeGame
+    inp = payload["input"]
+    n, hist = inp["n"], inp["history"]
+    objs = {}
+    msgs = []
+    for line in hist:
+        w = line.split()
+        if w[0] == "tab":
+            w = w[1:]
+        if w[0] in ("copy", "neg"):
+            src, dst = w[1], w[2]
+            if src not in objs:
+                objs[src] = IncompleteCooperativeGame(n)
+            objs[dst] = objs[src].copy() if w[0] == "copy" else -objs[src]
+            continue
+        name = w[1]
+        if name not in objs:
+            objs[name] = IncompleteCooperativeGame(n)
+        ans = apply_line(objs[name], [w[0]] + w[2:])
+        msgs.append(f"{line} -> {ans}")
+    bad = []
+    for name, g in objs.items():
+        K, L, U = dump_impl(g)
+        for c in range(len(K)):
+            if K[c] and L[c] != U[c]:
+                bad.append(f"{name}: known coalition {c} has lower {L[c]} ≠ upper {U[c]}")
+    out = "\n".join(msgs[-12:] + [f"final {k}: K={''.join('1' if x else '0' for x in dump_impl(v)[0])} L={rlist(dump_impl(v)[1])} U={rlist(dump_impl(v)[2])}" for k, v in objs.items()])
+    return bool(bad), out + ("\n" + "\n".join(bad) if bad else "\n(replayed on the real class; compare with the expected state recorded in the replay file)")
